@@ -226,6 +226,19 @@ fn worker_body<P: Prop>(a: WorkerArgs) {
   if a.index == 0 {
     for (ki, e) in known.entries.iter().enumerate() {
       if (ki as u32) < a.skip_pins { continue; }
+      if e.status.starts_with("fixed") {
+        // the example of a repaired defect is a plain regression case: it suppresses nothing and must pass now
+        if let Some(case) = e.example.as_ref().and_then(|ex| serde_json::from_value::<P::Case>(ex.clone()).ok()) {
+          emit(&mut *out.borrow_mut(), &json!({"t":"B","i":ki,"ph":"X","case":e.example}), true);
+          let v = run_checked::<P>(&case, &cx);
+          let failed = match &v.status { Status::Fail { sig, .. } => known.find(sig).is_none(), _ => false };
+          emit(&mut *out.borrow_mut(), &verdict_json(ki as u64, "X", &v, &known, Some(P::describe(&case))), failed);
+          if let (true, Status::Fail { sig, msg }) = (failed, &v.status) {
+            emit(&mut *out.borrow_mut(), &json!({"t":"F","case":e.example,"sig":sig,"msg":format!("regression of the defect repaired in {}: {}", e.status, msg),"d":P::describe(&case)}), true);
+          }
+        }
+        continue;
+      }
       if e.status != "known" { continue; }
       let Some(ex) = &e.example else { continue };
       let Ok(case) = serde_json::from_value::<P::Case>(ex.clone()) else {
